@@ -377,7 +377,7 @@ func TestC06(t *testing.T) {
 		"Layer 1: the real suspicion timer object in virtual time, PRNG scripts of (arrival offset, confirmer) over k in {0,1,2,3,5}, min 0.1-10 s, max 1-6 x min, confirmers from a 6-name pool incl. the accuser and duplicates, arrivals from 0 to beyond max, kept >= 3 ms away from every deadline; oracle = documented schedule T(i)=max(min, floor_ms(max - ln(i+1)/ln(k+1)(max-min))): callback exactly once, at the scheduled instant +-1 ms, inside [min,max], with the accepted count; Confirm's result for every pre-deadline arrival. Layer 2: a real node whose probes of a silent target start a suspicion on its own evidence; k/min/max read from the timer must equal the values derived from configuration and cluster size; confirmations, a refutation followed by re-suspicion, or a foreign death claim are delivered at scripted offsets; the NotifyLeave instant must match the schedule and the bounds. Cell = (k, #accepted, arrival pattern) / (e2e start, e2e end).")
 	defer run.Finish()
 	run.Assume("virtual time: callbacks run at exact timer instants; arrivals are kept away from deadlines so ties never decide a verdict")
-	n := run.Pick(3000, 300000)
+	n := run.Pick(6000, 3000000)
 	for i := 0; i < n; i++ {
 		if !run.Mine(i) {
 			continue
@@ -417,7 +417,7 @@ func TestC06(t *testing.T) {
 			run.Sample(s)
 		}
 	}
-	ne := run.Pick(40, 1500)
+	ne := run.Pick(120, 15000)
 	for i := 0; i < ne; i++ {
 		if !run.Mine(i) {
 			continue
